@@ -102,4 +102,18 @@ theorem run_early_shares (P : List Site) (i : Nat) (s : Site) (hi : P[i]? = some
   obtain ⟨t, ht⟩ := boot_early P 0 i s hi he
   exact ⟨t, by simp [run, runFrom, runBuild, ht]⟩
 
+/-- distinct values everywhere ⇒ nothing shared between two artifacts -/
+theorem noSharing_of_allDistinct (o : List Obs) (hd : AllDistinct o) : NoSharing o := by
+  intro a ha b hb hne htok
+  induction o with
+  | nil => simp at ha
+  | cons x xs ih =>
+    rw [AllDistinct, List.pairwise_cons] at hd
+    simp only [List.mem_cons] at ha hb
+    rcases ha with rfl | ha <;> rcases hb with rfl | hb
+    · exact hne rfl
+    · exact hd.1 b hb htok
+    · exact hd.1 a ha htok.symm
+    · exact ih hd.2 ha hb
+
 end SpsdkVerif.Fresh
